@@ -1,161 +1,15 @@
-(* C18 - proofs about the model C18/DelayAdj.v over the reals (RN).
-   A. event-time bookkeeping: the EventReducer fold holds the time since the TRUE most recent spike (induction over
-      the history); t_delta = t_post_last - t_pre_last - d; NaN until both sides have spiked.
+(* C18 - proofs, part 2, about the model C18/DelayAdj.v over the reals (RN); part 1 (event times, whole-cell
+   true-times statement) is C18/EventProofs.v.
    B. the generated half kernels: closed form, causal branch iff t_delta >= 0; the dedicated rules' inline term IS
       the generated kernel with |lr|.
    C. rule formulas: the (pos, neg) parts of every delay-adjusted trainer net to the documented rule.
-   D. kernel STDP with the shipped kernels gives the same parts as the dedicated rules.
-   E. zero delay: the adjusted rules reduce to unadjusted KernelSTDP.
-   F. whole cells, whole histories: at every step of every run the parts are the rule of the true spike times. *)
+   D. kernel STDP with the shipped kernels gives the same parts as the dedicated rules (refuted for amax).
+   E. zero delay: the adjusted rules reduce to unadjusted KernelSTDP, over whole runs.
+   F. no change while a side is silent; the documented rule over whole runs; routing and sign of the parts. *)
 From Coq Require Import List ZArith Bool Reals Lra Lia Arith.
-From Inferno Require Import Base.Num Base.NumR Gen.Stdkernels C18.DelayAdj.
+From Inferno Require Import Base.Num Base.NumR Gen.Stdkernels C18.DelayAdj C18.EventProofs.
 Import ListNotations.
 Open Scope R_scope.
-
-Notation nvR := (nv RN).
-
-(* ================================================================== A. event times *)
-
-(* one unit's monitor after observing the history h (oldest first); None: nothing observed yet *)
-Definition ev_run (dt : R) (h : list bool) : option nvR :=
-  fold_left (fun st o => Some (ev_fold RN dt o st)) h None.
-(* Monitor.peek(): NaN (None) is also what an unobserved unit reads as in [nth _ _ None] *)
-Definition ev_peek (dt : R) (h : list bool) : nvR :=
-  match ev_run dt h with Some v => v | None => None end.
-
-(* independent description of "the most recent spike": step j spiked and no later step did *)
-Definition is_last (h : list bool) (j : nat) : Prop :=
-  nth j h false = true /\ forall i, (j < i)%nat -> nth i h false = false.
-Definition never (h : list bool) : Prop := forall i, nth i h false = false.
-
-(* the same, computed: index of the last [true] *)
-Fixpoint last_true (h : list bool) : option nat :=
-  match h with
-  | [] => None
-  | b :: t => match last_true t with
-              | Some j => Some (S j)
-              | None => if b then Some O else None
-              end
-  end.
-
-Lemma last_true_never h : last_true h = None <-> never h.
-Proof.
-  induction h as [|b t IH]; cbn.
-  - split; [intros _ i; destruct i; reflexivity | reflexivity].
-  - destruct (last_true t) as [j|] eqn:E.
-    + split; [discriminate|]. intros Hn. assert (Ht : never t) by (intros i; exact (Hn (S i))).
-      apply IH in Ht. discriminate.
-    + destruct b.
-      * split; [discriminate|]. intros Hn. specialize (Hn O). discriminate.
-      * split; [|reflexivity]. intros _ i. destruct i; [reflexivity|]. apply (proj1 IH eq_refl).
-Qed.
-
-Lemma last_true_is_last h j : last_true h = Some j <-> is_last h j.
-Proof.
-  revert j; induction h as [|b t IH]; intros j; cbn.
-  - split; [discriminate|]. intros [H _]. destruct j; discriminate.
-  - destruct (last_true t) as [k|] eqn:E.
-    + split.
-      * intros H; inversion H; subst. destruct (proj1 (IH k) eq_refl) as [H1 H2].
-        split; [exact H1|]. intros i Hi. destruct i; [lia|]. apply H2. lia.
-      * intros [H1 H2]. destruct j.
-        -- destruct (proj1 (IH k) eq_refl) as [H3 _]. specialize (H2 (S k) ltac:(lia)). cbn in H2. congruence.
-        -- f_equal. assert (Hj : is_last t j).
-           { split; [exact H1|]. intros i Hi. apply (H2 (S i)). lia. }
-           apply IH in Hj. congruence.
-    + assert (Hn : never t) by (apply last_true_never; exact E).
-      destruct b.
-      * split.
-        -- intros H; inversion H; subst. split; [reflexivity|]. intros i Hi. destruct i; [lia|]. apply Hn.
-        -- intros [H1 H2]. destruct j; [reflexivity|]. cbn in H1. rewrite Hn in H1. discriminate.
-      * split; [discriminate|]. intros [H1 _]. destruct j; [discriminate|]. cbn in H1. rewrite Hn in H1. discriminate.
-Qed.
-
-Lemma last_true_lt h j : last_true h = Some j -> (j < length h)%nat.
-Proof.
-  revert j; induction h as [|b t IH]; intros j; cbn; [discriminate|].
-  destruct (last_true t) as [k|].
-  - intros H; inversion H; subst. specialize (IH k eq_refl). lia.
-  - destruct b; [|discriminate]. intros H; inversion H. lia.
-Qed.
-
-Lemma last_true_snoc h o :
-  last_true (h ++ [o]) = if o then Some (length h) else last_true h.
-Proof.
-  induction h as [|b t IH]; cbn; [destruct o; reflexivity|].
-  rewrite IH. destruct o; [reflexivity|]. reflexivity.
-Qed.
-
-Lemma ev_run_snoc dt h o : ev_run dt (h ++ [o]) = Some (ev_fold RN dt o (ev_run dt h)).
-Proof. unfold ev_run. rewrite fold_left_app. reflexivity. Qed.
-
-(* closed form of the monitor: (number of steps since the last spike) * dt, NaN if there was none *)
-Definition since_last (dt : R) (h : list bool) : nvR :=
-  match last_true h with
-  | Some j => Some (INR (length h - 1 - j) * dt)
-  | None => None
-  end.
-
-Theorem event_time_since_last dt h : h <> [] -> ev_run dt h = Some (since_last dt h).
-Proof.
-  induction h as [|o h IH] using rev_ind; [congruence|]. intros _.
-  rewrite ev_run_snoc. f_equal. unfold since_last. rewrite last_true_snoc, app_length. cbn [length].
-  destruct h as [|b t].
-  - cbn. destruct o; [|reflexivity]. cbn. f_equal. lra.
-  - rewrite IH by discriminate. unfold ev_fold. destruct o.
-    + replace (length (b :: t) + 1 - 1 - length (b :: t))%nat with O by lia. cbn [INR]. f_equal. rn_simpl. lra.
-    + unfold since_last. destruct (last_true (b :: t)) as [j|] eqn:E; [|reflexivity].
-      apply last_true_lt in E. cbn [nv_add]. f_equal. rn_simpl.
-      replace (length (b :: t) + 1 - 1 - j)%nat with (S (length (b :: t) - 1 - j)) by lia.
-      rewrite S_INR. lra.
-Qed.
-
-Corollary ev_peek_since_last dt h : ev_peek dt h = since_last dt h.
-Proof.
-  unfold ev_peek. destruct h as [|b t]; [reflexivity|]. rewrite event_time_since_last by discriminate. reflexivity.
-Qed.
-
-(* the same against the declarative description, with true times: step k happens at time k * dt *)
-Theorem event_true_time dt h j :
-  is_last h j -> ev_peek dt h = Some (INR (length h - 1) * dt - INR j * dt).
-Proof.
-  intros H. apply last_true_is_last in H. rewrite ev_peek_since_last. unfold since_last. rewrite H.
-  apply last_true_lt in H. f_equal. rewrite minus_INR by lia. lra.
-Qed.
-Theorem event_not_spiked_yet dt h : never h -> ev_peek dt h = None.
-Proof. intros H. apply last_true_never in H. rewrite ev_peek_since_last. unfold since_last. rewrite H. reflexivity. Qed.
-
-(* ---- t_delta from the true spike times *)
-Definition true_tdelta (dt : R) (hpre hpost : list bool) (d : R) : nvR :=
-  match last_true hpre, last_true hpost with
-  | Some jp, Some jq => Some (INR jq * dt - INR jp * dt - d)     (* t_post_last - t_pre_last - d *)
-  | _, _ => None
-  end.
-
-Theorem tdelta_model_true dt hpre hpost d :
-  length hpre = length hpost ->
-  tdelta_adj RN (ev_peek dt hpre) (ev_peek dt hpost) d = true_tdelta dt hpre hpost d.
-Proof.
-  intros HL. rewrite !ev_peek_since_last. unfold since_last, true_tdelta.
-  destruct (last_true hpre) as [jp|] eqn:Ep; destruct (last_true hpost) as [jq|] eqn:Eq; try reflexivity.
-  apply last_true_lt in Ep. apply last_true_lt in Eq.
-  unfold tdelta_adj, nv_sub. f_equal. rn_simpl. rewrite !minus_INR by lia. rewrite HL. lra.
-Qed.
-
-Theorem tdelta_true_times dt hpre hpost d jp jq :
-  length hpre = length hpost -> is_last hpre jp -> is_last hpost jq ->
-  tdelta_adj RN (ev_peek dt hpre) (ev_peek dt hpost) d = Some (INR jq * dt - INR jp * dt - d).
-Proof.
-  intros HL Hp Hq. rewrite tdelta_model_true by exact HL. unfold true_tdelta.
-  apply last_true_is_last in Hp. apply last_true_is_last in Hq. rewrite Hp, Hq. reflexivity.
-Qed.
-
-Theorem tdelta_nan_until_both_spiked dt hpre hpost d :
-  never hpre \/ never hpost -> tdelta_adj RN (ev_peek dt hpre) (ev_peek dt hpost) d = None.
-Proof.
-  intros [H|H]; apply event_not_spiked_yet with (dt := dt) in H; rewrite H; unfold tdelta_adj, nv_sub;
-    [reflexivity | destruct (ev_peek dt hpre); reflexivity].
-Qed.
 
 (* ================================================================== B. the half kernels *)
 Notation rexp := Rtrigo_def.exp.
@@ -375,11 +229,6 @@ Proof.
   revert lb; induction la as [|a t IH]; intros lb; [cbn; rn_simpl; lra|].
   destruct lb as [|b lb]; [cbn; rn_simpl; lra|]. cbn [map2 tsum]. rn_simpl. rewrite IH. lra.
 Qed.
-Lemma map2_ext {A B C : Type} (f g : A -> B -> C) la lb : (forall a b, f a b = g a b) -> map2 f la lb = map2 g la lb.
-Proof.
-  intros H. revert lb; induction la as [|a t IH]; intros lb; [reflexivity|]. destruct lb; [reflexivity|].
-  cbn. rewrite H, IH. reflexivity.
-Qed.
 Lemma part_val_red_opt_sum l : part_val RN (red_opt RN (reduce RN RSum) l) = tsum RN l.
 Proof. destruct l; reflexivity. Qed.
 
@@ -565,132 +414,6 @@ Proof.
   pose proof (exp_pos (-1)) as He. generalize dependent (rexp (-1)). intros e He.
   rcases; cbn [fst snd part_val]; rn_simpl; rcases; lra.
 Qed.
-
-(* ================================================================== E/F. whole cells, whole histories *)
-
-Lemma tdelta_adj_zero tpre tpost : tdelta_adj RN tpre tpost 0 = tdelta_raw RN tpre tpost.
-Proof. destruct tpre, tpost; cbn; try reflexivity. f_equal. rn_simpl. lra. Qed.
-
-(* ---- tensors of event times *)
-Definition evt_from (dt : R) (st : option (list nvR)) (obs : list (list bool)) : option (list nvR) :=
-  fold_left (fun s o => Some (ev_fold_t RN dt o s)) obs st.
-Definition unit_hist (u : nat) (obs : list (list bool)) : list bool := map (fun o => nth u o false) obs.
-
-Lemma nth_map2 {A B C : Type} (f : A -> B -> C) la lb da db dc u :
-  length la = length lb -> f da db = dc -> nth u (map2 f la lb) dc = f (nth u la da) (nth u lb db).
-Proof.
-  revert lb u; induction la as [|a t IH]; intros lb u HL Hd; destruct lb as [|b lb]; try discriminate.
-  - destruct u; cbn; congruence.
-  - destruct u; cbn; [reflexivity|]. apply IH; [cbn in HL; lia | exact Hd].
-Qed.
-Lemma map2_length {A B C : Type} (f : A -> B -> C) la lb : length la = length lb -> length (map2 f la lb) = length la.
-Proof.
-  revert lb; induction la as [|a t IH]; intros lb HL; destruct lb; try discriminate; cbn; [reflexivity|].
-  f_equal. apply IH. cbn in HL. lia.
-Qed.
-
-Lemma ev_peek_snoc dt h b : h <> [] -> ev_peek dt (h ++ [b]) = ev_fold RN dt b (Some (ev_peek dt h)).
-Proof.
-  intros Hh. unfold ev_peek at 1. rewrite ev_run_snoc. unfold ev_peek.
-  rewrite (event_time_since_last dt h Hh). reflexivity.
-Qed.
-
-(* every entry of the monitor's tensor is the unit's own event time *)
-Lemma evt_from_units dt n obs :
-  obs <> [] -> Forall (fun o => length o = n) obs ->
-  exists l, evt_from dt None obs = Some l /\ length l = n /\
-            forall u, nth u l None = ev_peek dt (unit_hist u obs).
-Proof.
-  induction obs as [|o obs IH] using rev_ind; [congruence|]. intros _ Hf.
-  apply Forall_app in Hf. destruct Hf as [Hf Ho]. inversion Ho as [|? ? Hlo _]; subst.
-  unfold evt_from. rewrite fold_left_app. cbn [fold_left]. fold (evt_from dt None obs).
-  destruct obs as [|o' obs'].
-  - cbn [evt_from fold_left ev_fold_t]. eexists; split; [reflexivity|]. split; [apply map_length|].
-    intros u. exact (map_nth (fun o0 => ev_fold RN dt o0 None) o false u).
-  - destruct (IH ltac:(discriminate) Hf) as [l [El [Ll Hl]]]. rewrite El. cbn [ev_fold_t].
-    eexists; split; [reflexivity|]. split; [rewrite map2_length; lia|].
-    intros u. unfold unit_hist. rewrite map_app. cbn [map]. rewrite ev_peek_snoc by discriminate.
-    change (nth u o' false :: map (fun o0 : list bool => nth u o0 false) obs') with (unit_hist u (o' :: obs')).
-    rewrite <- Hl.
-    apply (nth_map2 (fun o0 s => ev_fold RN dt o0 (Some s)) o l false None None u); [lia | reflexivity].
-Qed.
-
-(* ---- the cell *)
-Section Cell.
-Variable red : list R -> R.
-Variable c : cellcfg RN.
-
-Definition state_after (st : cellstate RN) (is : list (stepin RN)) : cellstate RN :=
-  fold_left (fun s i => fst (cell_step RN red c s i)) is st.
-
-Lemma cell_run_app st is1 is2 :
-  cell_run RN red c st (is1 ++ is2) = cell_run RN red c st is1 ++ cell_run RN red c (state_after st is1) is2.
-Proof.
-  revert st; induction is1 as [|i t IH]; intros st; [reflexivity|]. cbn [app cell_run]. rewrite IH. reflexivity.
-Qed.
-(* so the record of step k of any run is one cell_step from the state reached by the first k inputs *)
-Corollary cell_run_step prefix i :
-  cell_run RN red c (mkCS RN None None) (prefix ++ [i]) =
-  cell_run RN red c (mkCS RN None None) prefix ++ [cell_step RN red c (state_after (mkCS RN None None) prefix) i].
-Proof. rewrite cell_run_app. reflexivity. Qed.
-
-Lemma state_after_evt st is :
-  state_after st is = mkCS RN (evt_from (c_dt RN c) (cs_pre RN st) (map (si_pre RN) is))
-                          (evt_from (c_dt RN c) (cs_post RN st) (map (si_post RN) is)).
-Proof.
-  revert st; induction is as [|i t IH]; intros st; [destruct st; reflexivity|].
-  cbn [state_after fold_left map evt_from]. fold (state_after (fst (cell_step RN red c st i)) t).
-  rewrite IH. reflexivity.
-Qed.
-
-(* t_delta of a receptive pair as the statement of the property has it: from the TRUE spike times of the two units *)
-Definition spec_tdelta (hpre hpost : list bool) (d : R) : nvR :=
-  match c_tr RN c with
-  | TKernel _ _ _ => true_tdelta (c_dt RN c) hpre hpost 0
-  | _ => true_tdelta (c_dt RN c) hpre hpost d
-  end.
-Definition spec_tds (is : list (stepin RN)) (s : synapse) (d : R) : list (list nvR) :=
-  map (fun b => map (fun io => spec_tdelta (unit_hist (b * c_npre RN c + fst io) (map (si_pre RN) is))
-                                           (unit_hist (b * c_npost RN c + snd io) (map (si_post RN) is)) d) s)
-      (seq 0 (c_B RN c)).
-
-Definition shaped (n m : nat) (is : list (stepin RN)) : Prop :=
-  Forall (fun i => length (si_pre RN i) = n /\ length (si_post RN i) = m) is.
-
-Lemma map2_ext_l {A B C : Type} (f g : A -> B -> C) la lb :
-  (forall a b, In a la -> f a b = g a b) -> map2 f la lb = map2 g la lb.
-Proof.
-  revert lb; induction la as [|a t IH]; intros lb H; [reflexivity|]. destruct lb; [reflexivity|].
-  cbn. rewrite H by (left; reflexivity). rewrite IH; [reflexivity|]. intros; apply H; right; assumption.
-Qed.
-
-(* FLAGSHIP: at every step of every run, for every parameter element, the trainer's forward is applied to the
-   t_delta values t_post_last - t_pre_last - d(t) of the true most recent spike times (NaN while a side is silent) *)
-Theorem cell_step_true_times n m prefix i :
-  shaped n m (prefix ++ [i]) ->
-  snd (cell_step RN red c (state_after (mkCS RN None None) prefix) i) =
-  map2 (fun s d => fwd RN red (c_tr RN c) (si_sig RN i) (spec_tds (prefix ++ [i]) s d)) (c_syn RN c) (si_delay RN i).
-Proof.
-  intros Hs. unfold cell_step. cbn [snd]. rewrite state_after_evt. cbn [cs_pre cs_post].
-  assert (Hpre : Forall (fun o => length o = n) (map (si_pre RN) (prefix ++ [i]))).
-  { apply Forall_map. eapply Forall_impl; [|exact Hs]. intros a [H _]; exact H. }
-  assert (Hpost : Forall (fun o => length o = m) (map (si_post RN) (prefix ++ [i]))).
-  { apply Forall_map. eapply Forall_impl; [|exact Hs]. intros a [_ H]; exact H. }
-  assert (Nn : forall (f : stepin RN -> list bool), map f (prefix ++ [i]) <> []).
-  { intros f. rewrite map_app. intros E. apply app_eq_nil in E. destruct E; discriminate. }
-  destruct (evt_from_units (c_dt RN c) n _ (Nn _) Hpre) as [lp [Ep [_ Hp]]].
-  destruct (evt_from_units (c_dt RN c) m _ (Nn _) Hpost) as [lq [Eq [_ Hq]]].
-  unfold evt_from in Ep, Eq. rewrite map_app, fold_left_app in Ep, Eq. cbn [map fold_left] in Ep, Eq.
-  unfold evt_from. inversion Ep as [Ep']. inversion Eq as [Eq']. clear Ep Eq.
-  apply map2_ext. intros s d. f_equal. unfold tds_of, spec_tds. apply map_ext. intros b. apply map_ext. intros io.
-  rewrite Ep', Eq', Hp, Hq. unfold tdelta_of, spec_tdelta.
-  assert (HL : forall u v, length (unit_hist u (map (si_pre RN) (prefix ++ [i]))) =
-                           length (unit_hist v (map (si_post RN) (prefix ++ [i])))).
-  { intros. unfold unit_hist. rewrite !map_length. reflexivity. }
-  destruct (c_tr RN c); try (apply tdelta_model_true; apply HL).
-  rewrite <- tdelta_adj_zero. apply tdelta_model_true. apply HL.
-Qed.
-End Cell.
 
 (* ---- zero delay *)
 Definition zero_delays (i : stepin RN) : Prop := Forall (fun d => d = 0) (si_delay RN i).
@@ -1056,4 +779,20 @@ Proof.
            end;
     try (match goal with |- 0 <= - (rsum _ _ (fun v => clamp_max0 _ (option_map ?a v)) _ + rsum _ _ (fun w => clamp_max0 _ (option_map ?b w)) _) =>
            pose proof (Hk2 a); pose proof (Hk2 b); lra end).
+Qed.
+
+(* ================================================================== kernel trainers with ARBITRARY half kernels *)
+(* KernelSTDP's documented rule: the clamped +/- split loses nothing - for any two half kernels the parts net to
+   K_post(t_delta) + K_pre(t_delta), summed over the receptive field (NaN entries contribute nothing) and reduced *)
+Theorem kernel_fwd_net red (kpost kpre : R -> R) tds : linear_red red ->
+  net RN (kernel_fwd RN red kpost kpre tds) =
+  red (map (fun row => nansum RN (map (option_map (fun td => kpost td + kpre td)) row)) tds).
+Proof.
+  intros [Hh Ha]. unfold net, kernel_fwd. cbn [fst snd part_val]. unfold rsum. rn_simpl.
+  rewrite <- !Ha. unfold Rminus. rewrite Ropp_involutive, <- Ha. f_equal. apply map_ext. intros row.
+  unfold nansum. induction row as [|v t IH]; [cbn; rn_simpl; lra|].
+  cbn [map tsum] in *. rn_simpl. change (T RN) with R in *.
+  destruct v as [td|]; cbn [option_map clamp_min0 clamp_max0 nan0]; rn_simpl; [|lra].
+  unfold tmax, tmin. rn_simpl. destruct (Rltb'_spec (kpost td) 0); destruct (Rltb'_spec 0 (kpost td));
+    destruct (Rltb'_spec (kpre td) 0); destruct (Rltb'_spec 0 (kpre td)); lra.
 Qed.
